@@ -30,7 +30,7 @@ pub fn property() -> Property {
             "sha2 (SHA-256/512 compression) is shared between the code under test and the reference HMAC/HKDF/SLIP-10; HMAC, HKDF and SLIP-10 themselves are re-implemented",
             "multiexp inputs have equal numbers of points and scalars and window sizes 1..8 (documented assumption of GenericMultiExp)",
             "secret-sharing evaluation points are distinct and non-zero (documented precondition; anonymity revoker identities are non-zero)",
-            "an encoding with the infinity flag and other non-zero bits is counted as invalid (zcash format: remaining bits must be zero); its acceptance by ark-bls12-381 0.4 is reported as finding F-C20-1 and excluded from failing generated runs (strict replay still reports it)",
+            "an encoding with the infinity flag and any other non-zero bit (incl. the sort flag) is invalid (zcash format: remaining bits must be zero); acceptance was finding F-C20-1, fixed in /repo by 512f728a1",
             "collisions of SHA-512/HMAC outputs between distinct paths are treated as impossible",
         ],
         targets: vec![
